@@ -193,6 +193,7 @@ func CheckSession(c SessCase) (vs hx.Vs, info sessInfo) {
 			if ps := s.Panics(); len(ps) > 0 {
 				// a crashing handler is C14's business; what was logged until then still counts
 				info.classes["handler-panicked (C14)"] = true
+				notePanic("pg-proxy:"+hx.PanicFunc(ps[0]), st.SQL, fmt.Sprintf("PostgreSQL proxy, %s protocol: %.600s", proto, ps[0]))
 			} else {
 				info.classes["session-ended-early"] = true
 			}
@@ -230,7 +231,32 @@ func CheckSession(c SessCase) (vs hx.Vs, info sessInfo) {
 			vs[len(vs)-1].Msg = fmt.Sprintf("step %d (%s protocol, parser mode %s): %s", i, proto, c.Mode, vs[len(vs)-1].Msg)
 		}
 	}
+	sweepSession(&vs, "session-log", lc, c, info)
 	return vs, info
+}
+
+// sweepSession looks once more at everything logged during the session with the markers of every
+// statement (entries written by the database-to-client loop may arrive after the reply was collected).
+func sweepSession(vs *hx.Vs, sink string, lc *logCapture, c SessCase, info sessInfo) {
+	if len(*vs) > 0 {
+		return
+	}
+	entries := lc.snapshot()
+	for i, st := range c.Steps {
+		if i >= len(info.steps) {
+			break
+		}
+		all := make([]located, len(st.Markers))
+		for j, m := range st.Markers {
+			all[j] = located{Marker: m}
+		}
+		n := len(*vs)
+		checkEntries(vs, sink, entries, info.steps[i], all)
+		if len(*vs) > n {
+			(*vs)[len(*vs)-1].Msg = fmt.Sprintf("statement %d, found after the session: %s", i, (*vs)[len(*vs)-1].Msg)
+			return
+		}
+	}
 }
 
 func sessClasses(c SessCase, info sessInfo) []string {
@@ -274,7 +300,7 @@ func TestSessionLogs(t *testing.T) {
 		t.Skip("sessions run in the PostgreSQL group")
 	}
 	R.Rule("TestSessionLogs", "1-6 marker statements (as TestRedact, PostgreSQL dialect) per session through acra's real PostgreSQL proxy (internal/pgsess: scripted client, typed fake database, encryptor configuration for t1/t2), simple and extended protocol, parser mode default|strict, with or without a loaded firewall configuration, log level debug|info|warning, format plaintext|json|cef; the hook on the standard logger captures every entry of proxy, firewall and encryptor; no marker of a statement in any entry logged while it is handled; non-trivial as TestRedact for at least one statement")
-	hx.Checks(50, 2000)
+	hx.Checks(50, 600)
 	rapid.Check(t, func(rt *rapid.T) {
 		c := genSessCase(rt)
 		vs, info := CheckSession(c)
